@@ -50,6 +50,16 @@ class Unsupported(Exception):
     pass
 
 
+def const_value(v):
+    """the "value" of a ConstantExpr in clang's JSON: "true" / "false" or a decimal number"""
+    if v in ("true", "false"):
+        return 1 if v == "true" else 0
+    try:
+        return int(v)
+    except (TypeError, ValueError):
+        raise Unsupported(f"constant {v!r}")
+
+
 def registry():
     """(lean name, clang filter name, includes, forcing expression, template argument types of the wanted specialisation)"""
     R = []
@@ -80,7 +90,56 @@ def registry():
     for u in UNS:
         for v in UNS:
             R.append((f"from_int_{u}_{v}", "from_int", inc("enum/from_int"), f"fcppt::enum_::from_int<verif_enum_{u}>({CNAME[v]}{{}})", [f"enum:{u}", v, "void"]))
+    # ---- second generation (ext/C06): everything below is additive
+    # bool is an integral type too: destination bool (result `optional<bool>`)
+    for s in ALL:
+        R.append((f"truncation_check_b_{s}", "truncation_check", inc("cast/truncation_check"),
+                  f"fcppt::cast::truncation_check<bool>({CNAME[s]}{{}})", ["bool", s, "void"]))
+    # enums whose underlying type is signed (the default `int`, `signed char`): the size type is the unsigned counterpart
+    for u in ["i8", "i32"]:
+        for v in UNS:
+            R.append((f"from_int_{u}_{v}", "from_int", inc("enum/from_int"), f"fcppt::enum_::from_int<verif_enum_{u}>({CNAME[v]}{{}})", [f"enum:{u}", v, "void"]))
+    # math::div on the narrow types (result type int) and on mixed operand types (usual arithmetic conversions)
+    for t in ["u8", "i8", "u16", "i16"]:
+        R.append((f"div_{t}", "div", inc("math/div"), f"fcppt::math::div({CNAME[t]}{{}}, {CNAME[t]}{{}})", [t, t]))
+    for l, r in DIV_MIXED:
+        R.append((f"div_{l}_{r}", "div", inc("math/div"), f"fcppt::math::div({CNAME[l]}{{}}, {CNAME[r]}{{}})", [l, r]))
+    # ceil_div_signed compiles for the narrow signed types as well (every intermediate is cast back to T)
+    for t in ["i8", "i16"]:
+        R.append((f"ceil_div_signed_{t}", "ceil_div_signed", inc("math/ceil_div_signed"),
+                  f"fcppt::math::ceil_div_signed<{CNAME[t]}>({CNAME[t]}{{}}, {CNAME[t]}{{}})", [t]))
+    # math::interval_distance: the two intervals arrive as four scalars (tuple slots)
+    for t in ALL:
+        tup = f"fcppt::tuple::object<{CNAME[t]}, {CNAME[t]}>"
+        R.append((f"interval_distance_{t}", "interval_distance", inc("math/interval_distance", "tuple/object"),
+                  f"fcppt::math::interval_distance<{CNAME[t]}>({tup}{{{CNAME[t]}{{}}, {CNAME[t]}{{}}}}, {tup}{{{CNAME[t]}{{}}, {CNAME[t]}{{}}}})", [t]))
+    # the unchecked casts the checked ones are built from (anchors cast/size.hpp, to_signed.hpp, to_unsigned.hpp) and their neighbours
+    for grp in (UNS, SIG):
+        for d in grp:
+            for s in grp:
+                R.append((f"size_{d}_{s}", "fcppt::cast::size", inc("cast/size"), f"fcppt::cast::size<{CNAME[d]}>({CNAME[s]}{{}})", [d, s]))
+                if BITS[d] >= BITS[s]:
+                    R.append((f"safe_numeric_{d}_{s}", "safe_numeric", inc("cast/safe_numeric"), f"fcppt::cast::safe_numeric<{CNAME[d]}>({CNAME[s]}{{}})", [d, s]))
+    for t in UNS:
+        R.append((f"to_signed_{t}", "fcppt::cast::to_signed", inc("cast/to_signed"), f"fcppt::cast::to_signed({CNAME[t]}{{}})", [t]))
+    for t in SIG:
+        R.append((f"to_unsigned_{t}", "fcppt::cast::to_unsigned", inc("cast/to_unsigned"), f"fcppt::cast::to_unsigned({CNAME[t]}{{}})", [t]))
+    for t in ALL:
+        R.append((f"promote_int_{t}", "fcppt::cast::promote_int", inc("cast/promote_int"), f"fcppt::cast::promote_int({CNAME[t]}{{}})", [t]))
+    # compile-time masks: a few instantiations per type (value, bit index)
+    for t in UNS:
+        for m in MASK_C[t]:
+            R.append((f"mask_c_{t}_{m}", "mask_c", inc("bit/mask_c"), f"fcppt::bit::mask_c<{CNAME[t]}, {m}ULL>()",
+                      [t, f"v{m if m < (1 << (BITS[t] - 1)) else m - (1 << BITS[t])}"]))   # clang prints the argument as a signed number
+        for b in SHIFTED_MASK_C[t]:
+            R.append((f"shifted_mask_c_{t}_{b}", "shifted_mask_c", inc("bit/shifted_mask_c"), f"fcppt::bit::shifted_mask_c<{CNAME[t]}, {b}>()", [t, f"v{b}"]))
     return R
+
+
+BITS = {"u8": 8, "u16": 16, "u32": 32, "u64": 64, "i8": 8, "i16": 16, "i32": 32, "i64": 64}
+DIV_MIXED = [("i32", "u32"), ("u32", "i32"), ("i8", "u8"), ("u8", "i64"), ("i64", "u64"), ("u16", "i32"), ("i16", "u64"), ("u64", "i8"), ("i32", "i64"), ("u32", "u64")]
+MASK_C = {"u8": [0, 1, 5, 255], "u16": [0, 256, 65535], "u32": [0, 65536, 4294967295], "u64": [0, 4294967296, 18446744073709551615]}
+SHIFTED_MASK_C = {"u8": [0, 3, 7], "u16": [0, 8, 15], "u32": [0, 16, 31], "u64": [0, 32, 63]}
 
 
 PRELUDE_CPP = """#include <cstdint>
@@ -88,6 +147,8 @@ enum class verif_enum_u8 : std::uint8_t { a, b, c, fcppt_maximum = c };
 enum class verif_enum_u16 : std::uint16_t { a, b, c, fcppt_maximum = c };
 enum class verif_enum_u32 : std::uint32_t { a, b, c, fcppt_maximum = c };
 enum class verif_enum_u64 : std::uint64_t { a, b, c, fcppt_maximum = c };
+enum class verif_enum_i8 : std::int8_t { a, b, c, fcppt_maximum = c };
+enum class verif_enum_i32 { a, b, c, fcppt_maximum = c };
 """
 
 
@@ -134,7 +195,7 @@ def norm_type(q):
     m = re.match(r"(?:class |struct )?fcppt::optional::object<(.*)>$", q)
     if m:
         return "opt:" + norm_type(m.group(1))
-    m = re.match(r"(?:enum )?verif_enum_(u\d+)$", q)
+    m = re.match(r"(?:enum )?verif_enum_([ui]\d+)$", q)
     if m:
         return "enum:" + m.group(1)
     m = re.match(r"(?:class |struct )?fcppt::bit::mask<(.*)>$", q)
@@ -143,6 +204,11 @@ def norm_type(q):
     m = re.match(r"(?:class |struct )?fcppt::strong_typedef<(.*), .*>$", q)
     if m:
         return norm_type(m.group(1))
+    m = re.match(r"(?:class |struct )?fcppt::tuple::object<([^<>]*)>$", q)
+    if m:
+        parts = [norm_type(x.strip()) for x in m.group(1).split(",")]
+        if all(is_int(x) for x in parts):
+            return "tup:" + ",".join(parts)
     return "?" + q
 
 
@@ -192,7 +258,7 @@ class Index:
     def find_spec(self, name, targs):
         out = []
         for f in self.templates.get(name, []):
-            ta = [norm_type(qual(c)) for c in f.get("inner", []) if c.get("kind") == "TemplateArgument"]
+            ta = targs_of(f)
             if ta == targs and body_of(f) is not None:
                 out.append(f)
         if len(out) > 1:
@@ -215,8 +281,14 @@ def body_of(f):
     return None
 
 
+def targ(c):
+    if "value" in c and "type" not in c:
+        return "v" + str(c["value"])
+    return norm_type(qual(c))
+
+
 def targs_of(f):
-    return [norm_type(qual(c)) for c in f.get("inner", []) if c.get("kind") == "TemplateArgument"]
+    return [targ(c) for c in f.get("inner", []) if c.get("kind") == "TemplateArgument"]
 
 
 def mangle(f):
@@ -243,7 +315,11 @@ class Emitter:
             return
         self.defs[lean_name] = None     # reserve (recursion guard)
         ctx = Fn(self, f, lean_name)
-        text = ctx.emit()
+        try:
+            text = ctx.emit()
+        except Exception:
+            self.defs.pop(lean_name, None)      # no half-translated entries: every later use fails again
+            raise
         self.defs[lean_name] = text
         self.order.append(lean_name)
 
@@ -254,6 +330,8 @@ class Emitter:
             return None
         decl_id = f["id"]
         if decl_id in self.names:
+            if self.names[decl_id] not in self.defs:
+                self.function(f, self.names[decl_id])     # a registry function that is first met as a callee
             return self.names[decl_id]
         base = mangle(f)
         name = base
@@ -273,6 +351,8 @@ class Fn:
         self.tmp = 0
         self.consts = []            # symbolic constants that became parameters
         self.ver = {}               # base variable name -> version counter
+        self.refs = {}              # C++ reference variable -> the variable (or tuple slot) it is bound to
+        self.tuples = {}            # tuple-typed parameter -> its slot pseudo-variables ("name#i")
 
     def fresh(self, base="t"):
         self.tmp += 1
@@ -287,14 +367,35 @@ class Fn:
         for p in params:
             t = norm_type(qual(p))
             nm = self.lean_ident(p["name"])
+            if t.startswith("tup:"):
+                slots = []
+                for i, et in enumerate(t[4:].split(",")):
+                    slot = f"{p['name']}#{i}"
+                    env[slot] = f"{nm}_{i}"
+                    sig.append((env[slot], self.lean_type(et)))
+                    slots.append(slot)
+                self.tuples[p["name"]] = slots
+                continue
             env[p["name"]] = nm
             sig.append((nm, self.lean_type(t)))
         rq = qual(f)
         rt = norm_type(re.sub(r"\s*\(.*$", "", self.return_qual(f)))
         if rt.startswith("?") or rt.startswith("opt:?"):
-            for st in body_of(f)["inner"]:
-                if st.get("kind") == "ReturnStmt":
-                    rt = norm_type(qual(st["inner"][0]))
+            # enable_if / decltype return types: the type of the first return statement (not inside a lambda)
+            def first_return(n):
+                if n.get("kind") == "ReturnStmt":
+                    return n
+                if n.get("kind") == "LambdaExpr":
+                    return None
+                for c in n.get("inner", []):
+                    if isinstance(c, dict):
+                        r = first_return(c)
+                        if r is not None:
+                            return r
+                return None
+            st = first_return(body_of(f))
+            if st is not None and st.get("inner"):
+                rt = norm_type(qual(st["inner"][0]))
         self.ret_type = rt
         lines = self.block(body_of(f)["inner"], env, ret=True)
         extra = "".join(f" ({c} : Int)" for c in self.consts)
@@ -335,13 +436,46 @@ class Fn:
         raise Unsupported(f"type {t} in {self.name}")
 
     def lean_ident(self, n):
-        n = n.lstrip("_") or "x"
+        n = n.replace("#", "_").lstrip("_") or "x"
         if n in ("end", "from", "to", "at", "in", "do", "then", "else", "if", "fun", "let", "have", "show", "by", "match", "with", "where", "open", "def", "max", "min", "mod", "div", "two", "one", "zero"):
             n = n + "_"
         return n
 
+    def resolve(self, cname):
+        """follow C++ references to the variable they are bound to"""
+        seen = 0
+        while cname in self.refs and seen < 20:
+            cname = self.refs[cname]
+            seen += 1
+        return cname
+
+    def ref_target(self, init, env):
+        """the variable / tuple slot an lvalue initialiser of a reference names, or None (a temporary: copy)"""
+        n = init
+        while True:
+            n = self.strip(n)
+            if n.get("kind") == "InitListExpr" and len(n.get("inner", [])) == 1:
+                n = n["inner"][0]
+                continue
+            break
+        if n.get("kind") == "DeclRefExpr" and n["referencedDecl"].get("kind") in ("VarDecl", "ParmVarDecl"):
+            nm = self.resolve(n["referencedDecl"]["name"])
+            return nm if nm in env else None
+        if n.get("kind") == "CallExpr":
+            callee = self.strip(n["inner"][0])
+            if callee.get("kind") == "DeclRefExpr" and callee["referencedDecl"].get("name") == "get" and len(n["inner"]) == 2:
+                arg = self.strip(n["inner"][1])
+                m = re.search(r"tuple::element<(\d+)U?L?,", (n.get("type") or {}).get("qualType", ""))
+                if arg.get("kind") == "DeclRefExpr" and m:
+                    tn = self.resolve(arg["referencedDecl"]["name"])
+                    if tn in self.tuples and int(m.group(1)) < len(self.tuples[tn]):
+                        return self.tuples[tn][int(m.group(1))]
+            raise Unsupported("reference bound to the result of a call")
+        return None
+
     def newver(self, env, cname):
-        base = self.lean_ident(cname)
+        cname = self.resolve(cname)
+        base = self.lean_ident(cname.replace("#", "_"))
         self.ver[base] = self.ver.get(base, 0) + 1
         nm = f"{base}_{self.ver[base]}"
         env[cname] = nm
@@ -351,7 +485,19 @@ class Fn:
     def block(self, stmts, env, ret):
         """Lines of a do-block.  If ret, the block's value is the function/lambda result."""
         out = []
-        stmts = [s for s in stmts if not self.ignorable(s)]
+        flat = []
+        for s in stmts:
+            if self.ignorable(s):
+                continue
+            if s.get("kind") == "CompoundStmt":
+                # `{ a; b; } rest` is translated as `a; b; rest` (a nested block may return); names must not be re-declared
+                self.no_shadowing(s, env)
+                flat += [c for c in s.get("inner", []) if not self.ignorable(c)]
+            else:
+                flat.append(s)
+        stmts = flat
+        if any(s.get("kind") == "CompoundStmt" for s in stmts):
+            return self.block(stmts, env, ret)
         for i, s in enumerate(stmts):
             k = s["kind"]
             rest = stmts[i + 1:]
@@ -364,6 +510,13 @@ class Fn:
                     init = [c for c in d.get("inner", []) if isinstance(c, dict) and "kind" in c and not c["kind"].endswith("Comment")]
                     if not init:
                         raise Unsupported("uninitialised variable " + d["name"])
+                    if (d.get("type") or {}).get("qualType", "").rstrip().endswith("&"):
+                        tgt = self.ref_target(init[-1], env)
+                        if tgt is not None:
+                            if d["name"] in env or d["name"] in self.refs:
+                                raise Unsupported("reference re-declared: " + d["name"])
+                            self.refs[d["name"]] = tgt
+                            continue
                     v = self.expr(init[-1], env, out, want=norm_type(qual(d)))
                     nm = self.newver(env, d["name"])
                     out.append(f"let {nm} := {v}")
@@ -371,6 +524,11 @@ class Fn:
                 v = self.expr(s["inner"][0], env, out, want=self.ret_type if ret is True else None)
                 out.append(f"pure {v}")
                 return out
+            elif k == "IfStmt" and s.get("isConstexpr") and self.strip_const(s["inner"][0]) is not None:
+                # `if constexpr`: only the selected branch exists in this instantiation
+                inner = s["inner"]
+                taken = inner[1] if self.strip_const(inner[0]) else (inner[2] if len(inner) > 2 else None)
+                return out + self.block(([taken] if taken is not None else []) + rest, env, ret)
             elif k == "IfStmt":
                 inner = s["inner"]
                 cond, then = inner[0], inner[1]
@@ -388,7 +546,43 @@ class Fn:
                     out.append("else do")
                     out += ["  " + l for l in rb]
                     return out
-                raise Unsupported("if-statement that falls through (assigning branches)")
+                el = [] if els is None else (els["inner"] if els["kind"] == "CompoundStmt" else [els])
+                if not self.contains_return(tl) and not self.contains_return(el):
+                    # both branches fall through: the variables they assign are joined behind the `if`
+                    assigned = set()
+                    for st in tl + el:
+                        self.assigned_vars(st, assigned)
+                    assigned = sorted(v for v in assigned if v in env)
+                    if not assigned:
+                        raise Unsupported("if-statement without effect on the variables in scope")
+                    e1, e2 = dict(env), dict(env)
+                    l1 = self.block(tl, e1, False)
+                    l2 = self.block(el, e2, False)
+                    tup = lambda e: e[assigned[0]] if len(assigned) == 1 else "(" + ", ".join(e[v] for v in assigned) + ")"
+                    for l in l1 + l2:
+                        if "\n" in l or l.startswith(("if ", "else", "  ")):
+                            raise Unsupported("nested statement-level if inside a joining if")
+                    b1 = "(do " + "; ".join(l1 + [f"pure {tup(e1)}"]) + ")" if l1 else f"pure {tup(e1)}"
+                    b2 = "(do " + "; ".join(l2 + [f"pure {tup(e2)}"]) + ")" if l2 else f"pure {tup(e2)}"
+                    names = [self.newver(env, v) for v in assigned]
+                    lhs = names[0] if len(names) == 1 else "(" + ", ".join(names) + ")"
+                    out.append(f"let {lhs} ← (if {c} then {b1} else {b2})")
+                    continue
+                if ret is False:
+                    raise Unsupported("conditional return inside a block that cannot return")
+                # some path returns, some path falls through: the continuation is duplicated into both branches
+                for st in tl + el:
+                    self.no_shadowing(st, env)
+                e1 = dict(env)
+                tb = self.block(tl + rest, e1, ret)
+                rb = self.block(el + rest, env, ret)
+                out.append(f"if {c} then do")
+                out += ["  " + l for l in tb]
+                out.append("else do")
+                out += ["  " + l for l in rb]
+                if len(out) > 400:
+                    raise Unsupported("too many paths")
+                return out
             elif k in ("ForStmt", "WhileStmt"):
                 self.loop(s, env, out)
             elif k == "CompoundStmt":
@@ -403,31 +597,77 @@ class Fn:
             raise Unsupported("control reaches end of non-void block in " + self.name)
         return out
 
+    def strip_const(self, n):
+        """value of an already evaluated constant condition, or None"""
+        while n.get("kind") in ("ParenExpr", "ExprWithCleanups"):
+            n = n["inner"][-1]
+        if n.get("kind") == "ConstantExpr" and "value" in n:
+            return const_value(n["value"]) != 0
+        return None
+
     def ignorable(self, s):
         return s.get("kind", "").endswith("Comment")
 
     def always_returns(self, stmts):
-        return bool(stmts) and stmts[-1]["kind"] == "ReturnStmt"
+        stmts = [s for s in stmts if not self.ignorable(s)]
+        if not stmts:
+            return False
+        last = stmts[-1]
+        if last["kind"] == "ReturnStmt":
+            return True
+        if last["kind"] == "CompoundStmt":
+            return self.always_returns(last.get("inner", []))
+        if last["kind"] == "IfStmt" and len(last["inner"]) > 2:
+            br = lambda b: b["inner"] if b["kind"] == "CompoundStmt" else [b]
+            return self.always_returns(br(last["inner"][1])) and self.always_returns(br(last["inner"][2]))
+        return False
 
-    def assigned_vars(self, n, acc):
+    def contains_return(self, stmts):
+        def walk(n):
+            if n.get("kind") == "ReturnStmt":
+                return True
+            if n.get("kind") == "LambdaExpr":
+                return False
+            return any(walk(c) for c in n.get("inner", []) if isinstance(c, dict))
+        return any(walk(st) for st in stmts)
+
+    def no_shadowing(self, n, env):
+        if n.get("kind") == "VarDecl" and (n.get("name") in env or n.get("name") in self.refs):
+            raise Unsupported("a branch re-declares " + n["name"])
+        for c in n.get("inner", []):
+            if isinstance(c, dict):
+                self.no_shadowing(c, env)
+
+    def assigned_vars(self, n, acc, allow_return=False):
         k = n.get("kind")
         if k in ("BinaryOperator", "CompoundAssignOperator") and (n.get("opcode", "").endswith("=") and n.get("opcode") not in ("==", "!=", "<=", ">=")):
             tgt = self.strip(n["inner"][0])
             if tgt.get("kind") == "DeclRefExpr":
-                acc.add(tgt["referencedDecl"]["name"])
+                acc.add(self.resolve(tgt["referencedDecl"]["name"]))
         if k == "UnaryOperator" and n.get("opcode") in ("++", "--"):
             tgt = self.strip(n["inner"][0])
             if tgt.get("kind") == "DeclRefExpr":
-                acc.add(tgt["referencedDecl"]["name"])
-        if k == "ReturnStmt":
+                acc.add(self.resolve(tgt["referencedDecl"]["name"]))
+        if k == "CallExpr" and len(n.get("inner", [])) == 3:
+            callee = self.strip(n["inner"][0])
+            if callee.get("kind") == "DeclRefExpr" and callee["referencedDecl"].get("name") == "swap":
+                for a in n["inner"][1:]:
+                    a = self.strip(a)
+                    if a.get("kind") == "DeclRefExpr":
+                        nm = self.resolve(a["referencedDecl"]["name"])
+                        for v in self.tuples.get(nm, [nm]):
+                            acc.add(v)
+        if k == "ReturnStmt" and not allow_return:
             raise Unsupported("return inside a loop")
         for c in n.get("inner", []):
             if isinstance(c, dict) and "kind" in c:
-                self.assigned_vars(c, acc)
+                self.assigned_vars(c, acc, allow_return)
 
     def used_vars(self, n, acc):
         if n.get("kind") == "DeclRefExpr" and n.get("referencedDecl", {}).get("kind") in ("VarDecl", "ParmVarDecl"):
-            acc.add(n["referencedDecl"]["name"])
+            nm = self.resolve(n["referencedDecl"]["name"])
+            for v in self.tuples.get(nm, [nm]):
+                acc.add(v)
         for c in n.get("inner", []):
             if isinstance(c, dict) and "kind" in c:
                 self.used_vars(c, acc)
@@ -514,6 +754,10 @@ class Fn:
     def expr(self, n, env, out, want=None, discard=False):
         n0 = n
         k = n.get("kind")
+        if k == "ConstantExpr" and "value" in n and norm_type(qual(n)) in ALL + ["bool"]:
+            # a constant expression clang has already evaluated (`if constexpr` conditions, template arguments)
+            v = const_value(n["value"])
+            return ("true" if v else "false") if norm_type(qual(n)) == "bool" else f"({v} : Int)"
         if k in ("ParenExpr", "ExprWithCleanups", "MaterializeTemporaryExpr", "CXXBindTemporaryExpr", "ConstantExpr"):
             return self.expr(n["inner"][-1], env, out, want, discard)
         if k == "InitListExpr":
@@ -522,12 +766,21 @@ class Fn:
             return self.expr(n["inner"][0], env, out, want, discard)
         if k == "IntegerLiteral":
             return f"({n['value']} : Int)"
+        if k == "CharacterLiteral":
+            return f"({int(n['value'])} : Int)"
+        if k == "SubstNonTypeTemplateParmExpr":
+            subs = [c for c in n.get("inner", []) if isinstance(c, dict) and c.get("kind") and not c["kind"].endswith("Decl")]
+            if len(subs) != 1:
+                raise Unsupported("substituted template parameter without a single replacement")
+            return self.expr(subs[0], env, out, want, discard)
         if k == "CXXBoolLiteralExpr":
             return "true" if n.get("value") else "false"
         if k == "DeclRefExpr":
             rd = n["referencedDecl"]
-            if rd["kind"] in ("VarDecl", "ParmVarDecl") and rd["name"] in env:
-                return env[rd["name"]]
+            if rd["kind"] in ("VarDecl", "ParmVarDecl") and self.resolve(rd["name"]) in env:
+                return env[self.resolve(rd["name"])]
+            if rd["kind"] in ("VarDecl", "ParmVarDecl") and self.resolve(rd["name"]) in self.tuples:
+                raise Unsupported("tuple used as a value: " + rd["name"])
             if rd["kind"] == "VarDecl" and rd["name"] == "value" and is_int(norm_type(qual(n))):
                 # integral_constant<...>::value whose number is not in the AST: becomes a parameter
                 if "size" not in self.consts:
@@ -570,7 +823,7 @@ class Fn:
                 if tgt.get("kind") != "DeclRefExpr":
                     raise Unsupported("++ on non-variable")
                 vt = norm_type(qual(tgt))
-                cname = tgt["referencedDecl"]["name"]
+                cname = self.resolve(tgt["referencedDecl"]["name"])
                 old = env[cname]
                 # T promoted, +-1, converted back
                 pt = vt if vt in ("u32", "i32", "u64", "i64") else "i32"
@@ -628,7 +881,7 @@ class Fn:
             vt = norm_type(qual(tgt))
             ct = norm_type((n.get("computeResultType") or {}).get("desugaredQualType") or (n.get("computeResultType") or {}).get("qualType") or qual(n))
             cl = norm_type((n.get("computeLHSType") or {}).get("desugaredQualType") or (n.get("computeLHSType") or {}).get("qualType") or qual(n))
-            cname = tgt["referencedDecl"]["name"]
+            cname = self.resolve(tgt["referencedDecl"]["name"])
             x = f"(CInt.conv {ity(cl)} {env[cname]})"
             y = self.expr(b, env, out)
             if op in ("+", "-", "*", "/", "%"):
@@ -681,17 +934,52 @@ class Fn:
         rq = meth["type"].get("desugaredQualType") or meth["type"]["qualType"]
         return params, body, meth
 
+    def typed_uses(self, n, acc):
+        """C++ variables referenced below n, with their types"""
+        if n.get("kind") == "DeclRefExpr" and n.get("referencedDecl", {}).get("kind") in ("VarDecl", "ParmVarDecl"):
+            acc.setdefault(n["referencedDecl"]["name"], norm_type(qual(n)))
+        for c in n.get("inner", []):
+            if isinstance(c, dict) and "kind" in c:
+                self.typed_uses(c, acc)
+
     def inline_lambda(self, lam, env, args, ret_type=None):
         params, body, meth = self.lambda_parts(lam)
         e2 = dict(env)
         for p, a in zip(params, args):
             e2[p["name"]] = a
+        entry = dict(e2)
         saved = self.ret_type
         self.ret_type = ret_type
+        nloops = len(self.loops)
         lines = self.block(body["inner"], e2, ret="lambda")
         self.ret_type = saved
-        return "(do " + "; ".join(lines) + ")" if all("\n" not in l and not l.startswith("if ") and not l.startswith("else") and not l.startswith("  ") for l in lines) \
-            else "(do\n" + "".join("      " + l + "\n" for l in lines) + "    )"
+        if all("\n" not in l and not l.startswith("if ") and not l.startswith("else") and not l.startswith("  ") for l in lines):
+            return "(do " + "; ".join(lines) + ")"
+        # a body with statement-level control flow becomes a helper definition `<function>.lam<k>` over the captured variables
+        if ret_type is None:
+            raise Unsupported("multi-statement lambda of unknown result type")
+        uses = {}
+        self.typed_uses(body, uses)
+        sig, actual, seen = [], [], set()
+        for cname, t in uses.items():
+            r = self.resolve(cname)
+            if r not in entry or entry[r] in seen:
+                continue
+            seen.add(entry[r])
+            if not re.fullmatch(r"[A-Za-z_][A-Za-z_0-9]*", entry[r]):
+                raise Unsupported("captured value is not a variable")
+            sig.append(f"({entry[r]} : {self.lean_type(t)})")
+            actual.append(entry[r])
+        text = "\n".join(lines)
+        for c in self.consts:
+            if re.search(r"(?<![\w.])" + re.escape(c) + r"(?![\w.])", text):
+                sig.append(f"({c} : Int)")
+                actual.append(c)
+        self.nlam = getattr(self, "nlam", 0) + 1
+        lname = f"{self.name}.lam{self.nlam}"
+        src = f"def {lname} " + " ".join(sig) + f" : M {self.lean_type(ret_type)} := do\n" + "".join("  " + l + "\n" for l in lines) + "\n"
+        self.loops.append(src)
+        return f"({lname} " + " ".join(actual) + ")" if actual else lname
 
     def call(self, n, env, out, want):
         inner = n["inner"]
@@ -708,8 +996,21 @@ class Fn:
         rd = callee["referencedDecl"]
         name = rd.get("name")
         rt = norm_type(qual(n))
+        if name == "swap" and len(args) == 2:
+            a, b = (self.strip(x) for x in args)
+            if a.get("kind") != "DeclRefExpr" or b.get("kind") != "DeclRefExpr":
+                raise Unsupported("swap of non-variables")
+            na, nb = self.resolve(a["referencedDecl"]["name"]), self.resolve(b["referencedDecl"]["name"])
+            sa, sb = self.tuples.get(na, [na]), self.tuples.get(nb, [nb])
+            if len(sa) != len(sb) or any(v not in env for v in sa + sb):
+                raise Unsupported("swap of unknown variables")
+            olda, oldb = [env[v] for v in sa], [env[v] for v in sb]
+            for v, o in list(zip(sa, oldb)) + list(zip(sb, olda)):
+                nm = self.newver(env, v)
+                out.append(f"let {nm} := {o}")
+            return "()"
         # translated callee?
-        lean = self.em.callee_name(rd) if name not in PRIMS else None
+        lean = self.em.callee_name(rd) if (name not in PRIMS or name in BODY_PRIMS) else None
         if lean:
             vals = [self.expr(a, env, out) for a in args]
             extra = "".join(" " + c for c in self.em.extra_params.get(lean, []))
@@ -723,7 +1024,9 @@ class Fn:
             return f"(CInt.conv {ity(rt)} {self.expr(args[0], env, out)})"
         if name in ("int_to_enum", "enum_to_int", "enum_to_underlying") and len(args) == 1:
             v = self.expr(args[0], env, out)
-            return v if name == "int_to_enum" else f"(CInt.conv {ity(rt)} {v})"
+            return f"(CInt.conv {ity(rt)} {v})"      # int_to_enum: static_cast to an enum with a fixed underlying type
+        if name in ("max", "min") and not args and rt == "bool":
+            return "true" if name == "max" else "false"       # numeric_limits<bool>
         if name == "max" and not args:
             return f"({ity(rt)}).hi"
         if name == "min" and not args:
@@ -756,52 +1059,128 @@ class Fn:
 
 
 PRIMS = {"literal", "size", "to_signed", "to_unsigned", "int_to_enum", "enum_to_int", "make_if", "bind", "map", "is_zero", "abs"}
+# primitives whose body is translated whenever the referenced instantiation is in the dumps (the built-in meaning is the fallback)
+BODY_PRIMS = {"size", "to_signed", "to_unsigned", "int_to_enum"}
+# dumped in addition to the registry's filters (callees whose bodies are translated)
+EXTRA_FILTERS = ["fcppt::cast::int_to_enum"]
 
 
 def translate(repo, only=None):
     reg = registry()
     if only:
         reg = [r for r in reg if re.search(only, r[0])]
-    includes = sorted({h for r in reg for h in r[2]})
-    filters = sorted({r[1] for r in reg} | {"truncation_check"})
+    includes = sorted({h for r in reg for h in r[2]} | {"fcppt/cast/int_to_enum.hpp"})
+    filters = sorted({r[1] for r in reg} | {"truncation_check"} | set(EXTRA_FILTERS))
     tmp = tempfile.mkdtemp(prefix="cxx2lean_")
     tu = os.path.join(tmp, "tu.cpp")
-    with open(tu, "w") as f:
-        f.write(PRELUDE_CPP)
-        for h in includes:
-            f.write(f"#include <{h}>\n")
-        f.write("void verif_force_instantiation() {\n")
-        for r in reg:
-            f.write(f"  (void){r[3]};\n")
-        f.write("}\n")
-    index = Index()
     errors = {}
+    excluded = set()
+
+    def write_tu():
+        """one forcing expression per line; returns line number -> registry name"""
+        lines = {}
+        with open(tu, "w") as f:
+            text = PRELUDE_CPP
+            for h in includes:
+                text += f"#include <{h}>\n"
+            text += "void verif_force_instantiation() {\n"
+            n = text.count("\n")
+            for r in reg:
+                if r[0] in excluded:
+                    continue
+                n += 1
+                lines[n] = r[0]
+                text += f"  (void){r[3]};\n"
+            text += "}\n"
+            f.write(text)
+        return lines
+
+    index = Index()
     try:
-        with ThreadPoolExecutor(max_workers=8) as ex:
-            for name, docs in zip(filters, ex.map(lambda nm: dump(repo, tu, nm), filters)):
-                index.add(docs)
-    except Unsupported as e:
-        return None, {"error": str(e)}
+        for attempt in range(6):
+            lines = write_tu()
+            index = Index()
+            try:
+                with ThreadPoolExecutor(max_workers=8) as ex:
+                    for name, docs in zip(filters, ex.map(lambda nm: dump(repo, tu, nm), filters)):
+                        index.add(docs)
+                break
+            except Unsupported as e:
+                # an instantiation that no longer compiles must not take the other functions down: the forcing lines clang
+                # blames are dropped (reported as errors of exactly these registry entries) and the dump is repeated
+                p = subprocess.run(["clang++-14", "-std=c++20", "-fsyntax-only", "-ferror-limit=0", "-DFCPPT_STATIC_LINK"] + include_flags(repo) + [tu],
+                                   capture_output=True, text=True)
+                blamed = {}
+                cur = None
+                for l in p.stderr.split("\n"):
+                    m = re.search(r"(?:error|fatal error): (.*)", l)
+                    if m and "tu.cpp" not in l.split(":")[0]:
+                        cur = m.group(1)
+                    m2 = re.match(r".*tu\.cpp:(\d+):\d+: (note: in instantiation|error|note: while substituting|note: requested here|note: in )", l)
+                    if m2 and int(m2.group(1)) in lines:
+                        blamed.setdefault(lines[int(m2.group(1))], cur or l.strip())
+                if not blamed or attempt == 5:
+                    return None, {"error": str(e)}
+                for nm, why in blamed.items():
+                    excluded.add(nm)
+                    errors[nm] = "the instantiation does not compile: " + str(why)[:300]
     finally:
         import shutil
         shutil.rmtree(tmp, ignore_errors=True)
+    reg = [r for r in reg if r[0] not in excluded]
     em = Emitter(index, {})
     done = []
+    found = {}
     for lean_name, fname, _, _, targs in reg:
+        fname = fname.split("::")[-1]
         specs = index.find_spec(fname, targs)
         if len(specs) != 1:
             errors[lean_name] = f"{len(specs)} specialisations of {fname}<{','.join(targs)}> with a body found"
             continue
-        try:
+        found[lean_name] = specs[0]
+        if fname in BODY_PRIMS:
+            # a registry function that is also a callee of other registry functions keeps its registry name there
             em.names[specs[0]["id"]] = lean_name
-            em.function(specs[0], lean_name)
+    for lean_name, fname, _, _, targs in reg:
+        if lean_name not in found:
+            continue
+        try:
+            em.names[found[lean_name]["id"]] = lean_name
+            em.function(found[lean_name], lean_name)
+            if not em.defs.get(lean_name):
+                raise Unsupported("recursive definition")
             done.append(lean_name)
         except Unsupported as e:
             errors[lean_name] = "unsupported: " + str(e)
             em.defs.pop(lean_name, None)
-    text = HEADER + "".join(em.defs[n] + "\n" for n in em.order if em.defs.get(n)) + table(done, em) + "end Fcppt.Gen\n"
+    families = {}
+    for lean_name, fname, _, _, _ in reg:
+        if lean_name in done:
+            families.setdefault(fname.split("::")[-1], []).append(lean_name)
+    text = HEADER + "".join(em.defs[n] + "\n" for n in em.order if em.defs.get(n)) + table(done, em) + unfold_macros(em, families) + "end Fcppt.Gen\n"
     return text, {"functions": done, "helpers": [n for n in em.order if n not in done], "errors": errors,
                   "extra_params": {k: v for k, v in em.extra_params.items() if v}}
+
+
+def unfold_macros(em, families):
+    """`gen_unfold_<family>`: unfolds every registry function of the family together with the helpers it (transitively) calls —
+    proofs do not have to know how the source splits a function into detail:: overloads."""
+    names = [n for n in em.order if em.defs.get(n)]
+    calls = {n: {m for m in names if m != n and re.search(r"(?<![\w.])" + re.escape(m) + r"(?![\w.])", em.defs[n])} for n in names}
+    out = "\n/-! Unfolding sets (used by the proofs instead of explicit helper names). -/\n"
+    for fam, roots in sorted(families.items()):
+        seen, todo = [], list(roots)
+        while todo:
+            n = todo.pop()
+            if n in seen:
+                continue
+            seen.append(n)
+            todo += sorted(calls.get(n, ()))
+        seen = [n for n in names if n in seen]
+        # lambda bodies that became helper definitions belong to their function
+        seen = [m for n in seen for m in re.findall(r"^def (\S+\.lam\d+) ", em.defs[n], re.M) + [n]]
+        out += f"macro \"gen_unfold_{fam}\" : tactic => `(tactic| simp only [" + ", ".join(seen) + "])\n"
+    return out
 
 
 def table(done, em):
@@ -809,12 +1188,15 @@ def table(done, em):
     def arity(n):
         m = re.search(r"^def " + re.escape(n) + r"((?: \([a-z_A-Z0-9]+ : Int\))*) : M (.*) := do", em.defs[n], re.M)
         return len(re.findall(r"\(", m.group(1))), m.group(2)
-    rows = {1: [], 2: [], 3: []}
+    rows = {0: [], 1: [], 2: [], 3: [], 4: []}
     for n in done:
         k, rt = arity(n)
-        show = {"Int": "showInt", "Bool": "showBool", "(Option Int)": "showOpt"}[rt]
-        args = " ".join("abc"[:k])
-        rows[k].append(f'  ("{n}", fun {args} => {show} ({n} {args}))')
+        show = {"Int": "showInt", "Bool": "showBool", "(Option Int)": "showOpt", "(Option Bool)": "showOptB"}[rt]
+        args = " ".join("abcd"[:k])
+        if k == 0:
+            rows[0].append(f'  ("{n}", {show} {n})')
+        else:
+            rows[k].append(f'  ("{n}", fun {args} => {show} ({n} {args}))')
     out = """
 def showM {α} (f : α → String) : M α → String
   | .ok v => f v
@@ -822,11 +1204,14 @@ def showM {α} (f : α → String) : M α → String
 def showInt : M Int → String := showM toString
 def showBool : M Bool → String := showM (fun b => if b then "1" else "0")
 def showOpt : M (Option Int) → String := showM (fun o => match o with | none => "none" | some v => "some " ++ toString v)
+def showOptB : M (Option Bool) → String := showM (fun o => match o with | none => "none" | some v => if v then "some 1" else "some 0")
 
 """
     out += "def table1 : List (String × (Int → String)) := [\n" + ",\n".join(rows[1]) + "]\n\n"
     out += "def table2 : List (String × (Int → Int → String)) := [\n" + ",\n".join(rows[2]) + "]\n\n"
     out += "def table3 : List (String × (Int → Int → Int → String)) := [\n" + ",\n".join(rows[3]) + "]\n\n"
+    out += "def table4 : List (String × (Int → Int → Int → Int → String)) := [\n" + ",\n".join(rows[4]) + "]\n\n"
+    out += "def table0 : List (String × String) := [\n" + ",\n".join(rows[0]) + "]\n\n"
     return out
 
 
